@@ -25,6 +25,15 @@ def ask(parser, alias, qs):
     return out
 
 
+def tables_of(parser, alias):
+    """the two lookup tables of an alias as item lists (state named by the property's anchors)"""
+    try:
+        return {'exact': [[k, v] for k, v in parser.barcodes[alias].items()],
+                'extended': [[k, list(v)] for k, v in parser.extendedBarcodes[alias].items()]}
+    except BaseException as e:
+        return {'error': '%s: %s' % (type(e).__name__, e)}
+
+
 def run_group(B, g, n):
     d = os.path.join(os.environ['SCMO_SCRATCH'], 'g%d' % n)
     os.makedirs(d)
@@ -46,7 +55,8 @@ def run_group(B, g, n):
     res = []
     for alias, qs in g['queries']:
         res.append(ask(parser, alias, qs))
-    return {'answers': res, 'pending_after': sorted(parser.pending_files.keys())}
+    return {'answers': res, 'pending_after': sorted(parser.pending_files.keys()),
+            'tables': {a: tables_of(parser, a) for a in g.get('dump', [])}}
 
 
 def handler(p):
@@ -64,7 +74,7 @@ def handler(p):
                     parser.addBarcode(barcodeFileAlias='user', barcode=bc, index=idx, hammingDistance=0,
                                       originBarcode=None)
                 parser.expand(a['k'], alias='user')
-                out['api'].append({'answers': ask(parser, 'user', a['queries'])})
+                out['api'].append({'answers': ask(parser, 'user', a['queries']), 'tables': {'user': tables_of(parser, 'user')}})
             except BaseException as e:
                 out['api'].append({'error': '%s: %s' % (type(e).__name__, e)})
         for s, n in p.get('circle', []):
